@@ -2,7 +2,11 @@
 // Assumed contracts on std (trusted; listed in evidence).  `ord_le` is the total preorder that
 // `K: Ord` induces; nothing about it is needed except that sorting sorts by it.
 // ---------------------------------------------------------------------------------------------
-pub uninterp spec fn ord_le<K>(a: K, b: K) -> bool;
+/// The total preorder `K: Ord` induces (vstd's spec twin of `Ord::cmp`; for a type that does not
+/// declare `obeys_cmp_spec` it is simply uninterpreted).
+pub open spec fn ord_le<K: core::cmp::Ord>(a: K, b: K) -> bool {
+    vstd::std_specs::cmp::OrdSpec::cmp_spec(&a, &b) != core::cmp::Ordering::Greater
+}
 
 /// The items an `IntoIterator` value yields, in order (uninterpreted; pinned down per type below).
 pub uninterp spec fn iter_items<I: IntoIterator>(i: I) -> Seq<I::Item>;
